@@ -29,6 +29,23 @@ class EpCase:
                 "replay_cmd": "echo '<runner_job as one JSON line>' | %s" % core.RUNNER_BIN}
 
 
+def tiny_use(rng, b, p=0.2):
+    """now and then the EPB use of one carrier is made tiny (a few millionths of a kWh in the year) while its production, if any,
+    keeps its size: no result may depend on comparing an energy with an absolute threshold (fix c3bd83b; seeded changes S16, S29,
+    S36, S43 all copied that idiom)"""
+    if rng.random() >= p:
+        return
+    crs = sorted({kw["carrier"] for k, kw in b.lines if k == "CONSUMO" and kw.get("service") not in ("NEPB", "COGEN")})
+    if not crs:
+        return
+    cr = rng.choice(crs)
+    f = Fraction(1, 2 ** rng.choice([20, 24, 28]))
+    for k, kw in b.lines:
+        if k == "CONSUMO" and kw["carrier"] == cr and kw.get("service") not in ("NEPB", "COGEN"):
+            kw["values"] = [Fraction(v) * f for v in kw["values"]]
+    b.tags.add("tiny_use_carrier")
+
+
 def gen_cases(rng, count, force=None, multi_eval=False, prefix="c", tweak=None):
     cases = []
     for i in range(count):
